@@ -89,6 +89,7 @@ pub struct Net {
     server_done: Arc<AtomicBool>,
     conns: HashMap<String, TcpStream>,
     nstore: usize,
+    bg_merge: Option<Arc<Mutex<Option<String>>>>,
 }
 
 enum ReadEnd {
@@ -164,6 +165,7 @@ impl Net {
             server_done: Arc::new(AtomicBool::new(false)),
             conns: HashMap::new(),
             nstore: 0,
+            bg_merge: None,
         }
     }
 
@@ -582,6 +584,34 @@ impl Net {
                     Ok(None) => "nil".into(),
                     Err(e) => format!("err {}", crate::store::err_kind(&e)),
                 })
+            }
+            ["kv.merge.bg"] => {
+                // start a merge pass on its own thread (it may have to wait for readers)
+                let h = self.handle.as_ref()?.clone();
+                let done = Arc::new(Mutex::new(None::<String>));
+                let d2 = done.clone();
+                std::thread::spawn(move || {
+                    let r = match h.verif_merge() {
+                        Ok(()) => "ok".to_string(),
+                        Err(e) => format!("err {}", crate::store::err_kind(&e)),
+                    };
+                    *d2.lock().unwrap() = Some(r);
+                });
+                self.bg_merge = Some(done);
+                Some("ok".into())
+            }
+            ["kv.merge.join", ms] => {
+                let deadline = Instant::now() + Duration::from_millis(ms.parse().ok()?);
+                let d = self.bg_merge.as_ref()?.clone();
+                loop {
+                    if let Some(r) = d.lock().unwrap().clone() {
+                        return Some(format!("done {}", r));
+                    }
+                    if Instant::now() >= deadline {
+                        return Some("timeout".into());
+                    }
+                    std::thread::sleep(Duration::from_millis(2));
+                }
             }
             ["kv.merge"] => {
                 let h = self.handle.as_ref()?;
